@@ -99,8 +99,9 @@ def rule_hook_kind(ctx, rep):
             elif m is not None:
                 txt = unparse(m.node)
                 delegates = "_new_or_updated_node" in txt or f"super().{hook}" in txt or "on_result_found" in txt
-                gated_effect = any(e.method.qname == m.qname and (e.roles & {"RESULT", "SELECTED"}) for e in effs) or any(
-                    (e.roles & {"RESULT", "SELECTED"}) for e in effs
+                called = {n.func.attr for n in walk_no_nested(m.node) if isinstance(n, ast.Call) and isinstance(n.func, ast.Attribute) and isinstance(n.func.value, ast.Name) and n.func.value.id == "self"}
+                gated_effect = any(
+                    (e.method.qname == m.qname or e.method.name in called) and (e.roles & {"RESULT", "SELECTED"}) for e in effs
                 )
                 ok = delegates or gated_effect
                 why = f"custom {hook} neither delegates to the result dispatcher nor contains a result-gated change"
